@@ -91,7 +91,7 @@ class OperandFormatter:
                     return r'"\{}"'.format(chr(value & 127)) + suffix
                 return '"{}"'.format(chr(value & 127)) + suffix
             base = DEFAULT_BASE
-        if base == 'm':
+        if base == 'm' and value:
             if num_bytes == 1:
                 value = 256 - value
             else:
